@@ -74,7 +74,7 @@ CHECKS = {
    "5/C09"),
  "C12": ("vfront",
    "metamorphic property testing (proptest): literal module vs. referencing variant across all load orders, plus negative variants",
-   "A random subset of the literal sites of a generated module (in every fourth case with ranges / sizes made degenerate n..n) is replaced by value references assigned before/after the use or in 1..3 sibling modules imported by name, by OID or both; for every load order into MultiModuleResolver (and try_resolve) the resolved definitions equal those of the literal module; every third scenario has DEFAULT components typed by references that cannot be looked up. Negative variants (missing assignment, removed import with a same-named symbol elsewhere, exporter not loaded, BOOLEAN / character string / hstring / bstring where an integer is needed) must give Err for every load order.",
+   "A random subset of the literal sites of a generated module (in every fourth case with ranges / sizes made degenerate n..n) is replaced by value references assigned before/after the use or in 1..3 sibling modules imported by name, by OID, by both, or by name with an OID that names a further version arc; for every load order into MultiModuleResolver (and try_resolve) the resolved definitions equal those of the literal module; every third scenario has DEFAULT components typed by references that cannot be looked up. Negative variants (missing assignment, removed import with a same-named symbol elsewhere, exporter not loaded, BOOLEAN / character string / hstring / bstring where an integer is needed) must give Err for every load order.",
    "Load orders are enumerated completely up to 4 modules.",
    "5/C12"),
  "C13": ("vfront",
